@@ -32,6 +32,7 @@ type CEnv struct {
 	whereExpr *CE  // callee's where-clause when evaluating its ensures at a call site
 	ghostsOK  bool // the frame's logical variables are in scope (own contract, not a callee's)
 	goal      bool // polarity: true when the formula is to be proved, false when assumed
+	calleeEnv bool // the clause belongs to a callee (names are the callee's parameters, not the frame's)
 	mixed     int  // >0 inside a context of both polarities
 }
 
@@ -257,7 +258,7 @@ func (c *CEnv) ident(e *CE, hint *Value) Value {
 	if v, ok := c.bound[name]; ok {
 		return v
 	}
-	if c.inOld && c.fr != nil && c.fr.fn != nil {
+	if c.inOld && !c.calleeEnv && c.fr != nil && c.fr.fn != nil {
 		// old(x) of a parameter is its entry value, even when x was reassigned
 		for i, p := range c.fr.fn.Params {
 			if p.Name() == name && i < len(c.fr.params) {
